@@ -25,6 +25,7 @@ are ``unspecified`` (counted, never asserted).
 from __future__ import annotations
 
 import itertools
+import os
 import re
 import sys
 import types
@@ -594,7 +595,7 @@ def uses(h: Hier, case, exp):
     def rec(t):
         for n in walk(t):
             if n[0] == "gen":
-                out.append((n[1], len(n[2])))
+                out.append((n[1], -1 if any(a[0] in ("unspec", "unspec_seq") for a in n[2]) else len(n[2])))
                 for ft in h.model_fields(n).values():
                     rec(ft)
             elif n[0] == "genbare":
@@ -602,8 +603,7 @@ def uses(h: Hier, case, exp):
                 for ft in h.model_fields(n).values():
                     rec(ft)
     for t in exp.values():
-        if not h.unspecified(t):
-            rec(t)
+        rec(t)
     return out
 
 
@@ -1170,7 +1170,9 @@ def st_case(draw):  # noqa: C901, PLR0912, PLR0915
     bare_query = chance(draw, 1, 5)
     unpack_spelled = draw(st.sampled_from([0, 2, 1, 3, 4, 0]))
     deep_query = chance(draw, 5, 6)
-    allow_known = chance(draw, 1, 16)
+    # known defect classes (known_findings.d/C16.json) are avoided by construction for 15/16 of the budget;
+    # C16_PROBE_KNOWN=1 lifts the exclusion completely (use it to re-test after a fix)
+    allow_known = chance(draw, 1, 16) or os.environ.get("C16_PROBE_KNOWN") == "1"
     diamond_mode = kind in ("dataclass", "attrs", "typeddict") and chance(draw, 1, 5)
     bound = draw(st.sampled_from([["int"], ["str"], ["leaf"], ["list", ["int"]], ["bool"]]))
     constr = draw(st.sampled_from([[["str"], ["bool"]], [["int"], ["none"]], [["int"], ["str"]],
